@@ -50,6 +50,29 @@ type Liar struct {
 	hdrCache map[chainhash.Hash][]chainhash.Hash
 	// Told records every block hash for which a false value was actually sent.
 	Told map[chainhash.Hash]string
+	// ToldSeq is the event-log position at which a false filter hash or
+	// checkpoint for the block was FIRST sent (0: no log).
+	ToldSeq map[chainhash.Hash]int64
+}
+
+// FirstTold returns the event-log position of the first false value sent
+// about the block (ok=false: none was sent).
+func (l *Liar) FirstTold(h chainhash.Hash) (int64, bool) {
+	l.mu.Lock()
+	defer l.mu.Unlock()
+	s, ok := l.ToldSeq[h]
+	return s, ok
+}
+
+func (l *Liar) told(p *Peer, h chainhash.Hash, kind string) {
+	l.Told[h] = kind
+	if _, ok := l.ToldSeq[h]; !ok {
+		var s int64
+		if p.Log != nil {
+			s = p.Log.Len()
+		}
+		l.ToldSeq[h] = s
+	}
 }
 
 // NewLiar creates a liar; the falsified material is built lazily per block.
@@ -57,7 +80,7 @@ func NewLiar(seed int64, lies ...Lie) *Liar {
 	return &Liar{Lies: lies, rng: rand.New(rand.NewSource(seed)),
 		fakeHash: map[chainhash.Hash]chainhash.Hash{}, fakeFilter: map[chainhash.Hash][]byte{},
 		noServe: map[chainhash.Hash]bool{}, hdrCache: map[chainhash.Hash][]chainhash.Hash{},
-		Told: map[chainhash.Hash]string{}}
+		Told: map[chainhash.Hash]string{}, ToldSeq: map[chainhash.Hash]int64{}}
 }
 
 // FilterEntries returns the BIP158 basic-filter entries of a block.
@@ -232,9 +255,9 @@ func (l *Liar) Mutate(p *Peer, req wire.Message, honest []wire.Message) []wire.M
 			fh := hdrs[h]
 			if lie := l.has(LieCheckpt); lie != nil && lie.Height == h {
 				l.rng.Read(fh[:])
-				l.Told[stop.Ancestor(h).Hash] = LieCheckpt
+				l.told(p, stop.Ancestor(h).Hash, LieCheckpt)
 			} else if fh != stop.Ancestor(h).FilterHeader {
-				l.Told[stop.Ancestor(h).Hash] = "checkpt-consistent"
+				l.told(p, stop.Ancestor(h).Hash, "checkpt-consistent")
 			}
 			_ = resp.AddCFHeader(&fh)
 		}
@@ -269,7 +292,7 @@ func (l *Liar) Mutate(p *Peer, req wire.Message, honest []wire.Message) []wire.M
 			if fh != path[h].FilterHash {
 				for _, lie := range l.Lies {
 					if lie.Height == h {
-						l.Told[path[h].Hash] = lie.Kind
+						l.told(p, path[h].Hash, lie.Kind)
 					}
 				}
 			}
